@@ -10,7 +10,8 @@ w == TSym("w")
 B(k, a, b) == TOp(k, <<a, b>>)
 U(k, a) == TOp(k, <<a>>)
 N(k, a) == TOp(k, a)
-Sub(S, n) == IF Thorough \/ Cardinality(S) <= n THEN S ELSE RandomSubset(n, S)
+\* (the thorough tier samples three times as many of each operand set)
+Sub(S, n) == LET m == IF Thorough THEN 3 * n ELSE n IN IF Cardinality(S) <= m THEN S ELSE RandomSubset(m, S)
 Shared == {B("add", x, y), B("mul", x, y), N("add", <<x, y, z>>), N("mul", <<x, y, z>>), B("pow", x, y), B("pow", B("add", x, y), TInt(2)),
            U("sin", x), U("exp", B("mul", x, y)), B("add", B("mul", TInt(2), x), y), B("mul", TInt(3), B("pow", x, TInt(2))), U("sqrt", B("add", x, TInt(1))),
            B("div", x, y), U("neg", B("add", x, y)), B("add", B("pow", x, TInt(2)), B("pow", y, TInt(2)))}
